@@ -86,11 +86,31 @@ func gen(t *rapid.T) Case {
 	c.PrioDuringBG = rapid.SliceOfN(rapid.SampledFrom([]int{0, 50, 300, 2000}), 0, 4).Draw(t, "prio")
 	c.Repeat = rapid.Bool().Draw(t, "repeat")
 	npr := rapid.SampledFrom([]int{0, 0, 1, 2, 4}).Draw(t, "npartial")
-	if npr > 0 && rapid.Bool().Draw(t, "smallregchunk") {
+	if npr > 0 && rapid.IntRange(0, 3).Draw(t, "smallregchunk") > 0 {
 		c.Cfg.RegChunk = rapid.SampledFrom([]int64{100, 64, 512}).Draw(t, "regchunk2") // a skipped file's blob range is then not fetched along with its neighbours
 	}
 	for i := 0; i < npr; i++ {
 		c.PartialReads = append(c.PartialReads, [3]int{rapid.IntRange(-5, 12).Draw(t, "prfile"), rapid.SampledFrom([]int{0, 0, 1, cs, cs + 1, 2 * cs}).Draw(t, "proff"), rapid.SampledFrom([]int{1, 2, cs, cs + 1}).Draw(t, "prlen")})
+	}
+	if npr > 0 && rapid.Bool().Draw(t, "headonly") {
+		// a container looks at the head of a big file and nothing else: exactly one chunk of it is cached
+		// when background fetch walks the layer
+		c.Archive.Entries[len(c.Archive.Entries)-1].Size = rapid.SampledFrom([]int{20 * cs, 9*cs + 1, 3 * cs}).Draw(t, "bigzz")
+		c.PartialReads[0] = [3]int{-1, 0, rapid.SampledFrom([]int{1, 2, cs}).Draw(t, "headlen")}
+		if rapid.Bool().Draw(t, "persistentfscache") {
+			c.Cfg.FSCache = "directory"
+		}
+	}
+	if rapid.IntRange(0, 39).Draw(t, "bigfile") == 0 {
+		// reading the head of a file pulls up to 2 MiB of its compressed data into the blob cache, so only a file
+		// that is bigger than that still depends on background fetch after such a read
+		c.Opts = esgzbuild.Opts{Compression: "gzip", Level: 1, ChunkSize: 1 << 20, Workers: 1}
+		c.Legacy = false
+		c.Archive.Entries[len(c.Archive.Entries)-1].Size = 5500000 // (generated content compresses to about 58 %)
+		c.Cfg.RegChunk = rapid.SampledFrom([]int64{0, 1 << 19}).Draw(t, "bigregchunk")
+		c.Cfg.BodyPiece = 0
+		c.Script = ""
+		c.PartialReads = [][3]int{{-1, 0, 2}}
 	}
 	return c
 }
@@ -364,6 +384,9 @@ func run(c Case, ev *pbt.Ev) error {
 			}
 			ev.ClassIf(len(want) > c.Opts.EffectiveChunk(), "partial-read-of-multi-chunk-file-before-bgfetch")
 		}
+	}
+	if len(c.PartialReads) > 0 {
+		st.WaitCacheWritesLanded(5 * time.Second) // (background fetch starts some time after those reads)
 	}
 	// ---- background fetch with prioritized work arriving
 	stopPrio := make(chan struct{})
